@@ -50,6 +50,8 @@ func c04(w *core.World, r *core.Report) {
 	ruleBusyKeyTexts(w, r)
 	r.Rule("R04.11", "a plain cluster batch scans its replies for error replies before it reports success: a refused native command of a snapshot entry is not taken for applied", 1)
 	ruleBatchExecChecksReplies(w, r)
+	r.Rule("R04.12", "an error of applying a snapshot entry ends the replay worker: from every call in the per-entry loop that is handed the entry (or something made from it), a path that has seen its error neither takes the next entry nor returns nil, unless it retries the call or the replay context was cancelled (seed C04-13)", 3)
+	ruleEntryErrorEndsWorker(w, r)
 }
 
 // chanOf reports whether v denotes the channel created by mk (through cells / closures).
